@@ -337,13 +337,13 @@ Qed.
 
 (* Shard.close only looks at the closed minishards *)
 Fixpoint close_minis' (l : list (N * (mini * outcome unit))) (data : bytes)
-  : outcome (list mini * bytes) :=
+  : outcome (list (N * mini) * bytes) :=
   match l with
   | [] => Ok ([], data)
-  | (_, (ms1, res)) :: r =>
+  | (k, (ms1, res)) :: r =>
       bind res (fun _ =>
       bind (set_offset ms1 (lenN data)) (fun ms2 =>
-      bind (close_minis' r (data ++ ms_data ms1)) (fun '(rest, d) => Ok (ms2 :: rest, d))))
+      bind (close_minis' r (data ++ ms_data ms1)) (fun '(rest, d) => Ok ((k, ms2) :: rest, d))))
   end.
 
 Lemma close_minis_factor : forall l d,
